@@ -274,6 +274,18 @@ func genUpdate(rng *rand.Rand, id nodeID, nm *nodeModel, o *op, big int) pb.Upda
 		o.recvSnap = true
 	default: // hard state only
 		o.stateOnly = true
+		if !fresh && nm.term == nm.state.Term && rng.Intn(2) == 0 {
+			// exactly one field of the hard state changes (a vote granted, or a commit index
+			// learned, in a term the replica already knows)
+			st := nm.state
+			if rng.Intn(3) > 0 || last == commit {
+				st.Vote = (st.Vote + 1 + uint64(rng.Intn(3))) % 5
+			} else {
+				st.Commit = commit + 1 + uint64(rng.Int63n(int64(last-commit)))
+			}
+			ud.State = st
+			return ud
+		}
 	}
 	// hard state: always with the first save, otherwise sometimes unchanged (empty)
 	if rng.Intn(6) == 0 && len(ud.EntriesToSave) == 0 && pb.IsEmptySnapshot(ud.Snapshot) {
